@@ -5,6 +5,7 @@ import (
 	"context"
 	"errors"
 	"fmt"
+	"sort"
 	"time"
 
 	kafka "github.com/segmentio/kafka-go"
@@ -29,13 +30,18 @@ func init() { Scenarios["flush"] = flushScenario }
 // the partition reached the client. The composition of the batches is taken
 // from the requests themselves: no batching model is mirrored.
 type fmsg struct {
-	id     string
-	actor  int
-	size   int64
-	balAt  time.Duration // instant the balancer was asked (the batch assignment follows in the same instant)
-	part   int
-	topic  string
-	reject bool
+	id    string
+	actor int
+	size  int64
+	balAt time.Duration // instant the balancer was asked
+	call  string        // the WriteMessages call it belongs to
+	// the messages of a call are assigned to batches together, once the last of
+	// them has been routed (routing a message of a topic whose metadata is not
+	// cached yet waits for the metadata): appendAt is that instant
+	appendAt time.Duration
+	part     int
+	topic    string
+	reject   bool
 }
 
 type flushBalancer struct {
@@ -124,7 +130,7 @@ func flushScenario(s *Sim, params map[string]string) {
 				msgs := make([]kafka.Message, k)
 				var fm []*fmsg
 				for j := 0; j < k; j++ {
-					m := &fmsg{id: fmt.Sprintf("a%dc%di%d", a, ci, j), actor: a, part: -1, balAt: -1}
+					m := &fmsg{id: fmt.Sprintf("a%dc%di%d", a, ci, j), call: fmt.Sprintf("a%dc%d", a, ci), actor: a, part: -1, balAt: -1}
 					m.topic = topics[t.Intn("work", len(topics))]
 					key := keys[t.Intn("work", len(keys))]
 					pad := Pick(t, "work", 0, 0, 10, 30)
@@ -220,6 +226,15 @@ func flushScenario(s *Sim, params map[string]string) {
 			}
 			perPart[key] = append(perPart[key], pr)
 		}
+		callAt := map[string]time.Duration{}
+		for _, m := range byID {
+			if m.balAt > callAt[m.call] {
+				callAt[m.call] = m.balAt
+			}
+		}
+		for _, m := range byID {
+			m.appendAt = callAt[m.call]
+		}
 		// R6: nothing but the passing of time was needed
 		for _, id := range SortedKeys(byID) {
 			m := byID[id]
@@ -231,6 +246,21 @@ func flushScenario(s *Sim, params map[string]string) {
 		for _, key := range SortedKeys(perPart) {
 			var prevDone time.Duration
 			reqs := perPart[key]
+			if acks == kafka.RequireNone {
+				// without acknowledgements the Writer sends the next batch as
+				// soon as the previous one is written, possibly on another
+				// connection: requests sent in the same instant reach the
+				// broker in any order (order is only promised with
+				// acknowledgements). Take them in the order the batches were
+				// opened.
+				first := func(pr *preq) time.Duration {
+					if len(pr.msgs) == 0 {
+						return pr.r.At
+					}
+					return pr.msgs[0].appendAt
+				}
+				sort.SliceStable(reqs, func(i, j int) bool { return first(reqs[i]) < first(reqs[j]) })
+			}
 			for k, pr := range reqs {
 				if len(pr.msgs) == 0 {
 					continue
@@ -247,13 +277,13 @@ func flushScenario(s *Sim, params map[string]string) {
 					s.Count("flush-retried")
 					continue
 				}
-				open := pr.msgs[0].balAt
+				open := pr.msgs[0].appendAt
 				var sized int64
 				var last time.Duration
 				for _, m := range pr.msgs {
 					sized += m.size
-					if m.balAt > last {
-						last = m.balAt
+					if m.appendAt > last {
+						last = m.appendAt
 					}
 				}
 				closeBy := open + bt
@@ -264,8 +294,8 @@ func flushScenario(s *Sim, params map[string]string) {
 					}
 				} else if k+1 < len(reqs) && len(reqs[k+1].msgs) > 0 {
 					nx := reqs[k+1].msgs[0]
-					if sized+nx.size > batchBytes && nx.balAt < closeBy {
-						closeBy, why = nx.balAt, "a message that did not fit"
+					if sized+nx.size > batchBytes && nx.appendAt < closeBy {
+						closeBy, why = nx.appendAt, "a message that did not fit"
 					}
 				}
 				bound := closeBy
